@@ -1,8 +1,37 @@
+/-
+  C04 — line-protocol ops for the BIP143 (witness v0) signature hash.
+
+    c04.bip143       script tx idx ht amount|none   Model.signatureHashWitnessV0 → digest-hex | err:<family>
+    c04.spec.bip143  script tx idx ht amount        Spec.bip143Sighash (ht ≥ 0)  → digest-hex | undefined
+    c04.hist         script q1 q2 …                 see Driver/C03.lean `c03.hist`
+-/
 import Driver.Util
+import Driver.TxFmt
+import BtcVerif.Model.Sighash
+import BtcVerif.Spec.Sighash
+import Driver.C03
 
 namespace Driver.C04
 open BtcVerif Driver
 
-def handle (_op : String) (_args : List String) : Option String := none
+def parseAmount? (s : String) : Option (Option Int) :=
+  if s == "none" then some none else (parseInt? s).map some
+
+def handle (op : String) (args : List String) : Option String :=
+  match op, args with
+  | "c04.bip143", [sc, tx, idx, ht, am] => some <|
+      match parseHex? sc, TxFmt.parseTx? tx, parseNat? idx, parseInt? ht, parseAmount? am with
+      | some sc, some tx, some idx, some ht, some am =>
+          Res.render ((Model.Sighash.signatureHashWitnessV0 sc tx idx ht am).map toHex)
+      | _, _, _, _, _ => badArgs
+  | "c04.hist", args => some (C03.histReply args)      -- same thin history op as c03.hist
+  | "c04.spec.bip143", [sc, tx, idx, ht, am] => some <|
+      match parseHex? sc, TxFmt.parseTx? tx, parseNat? idx, parseNat? ht, parseInt? am with
+      | some sc, some tx, some idx, some ht, some am =>
+          (match Spec.Sighash.bip143Sighash sc tx idx ht am with
+           | some d => toHex d
+           | none => "undefined")
+      | _, _, _, _, _ => badArgs
+  | _, _ => none
 
 end Driver.C04
